@@ -262,4 +262,15 @@ def opPlanSched : RM Res := do
   let preds := if free then [P "C12.schedule" (os.all (· == first), s!"success of planning varies with the pool size / repetition: first {first}, others {os}")] else []
   pure { corr := "OK", preds := preds, tags := ["n=1", s!"varies={!(os.all (· == first))}"] }
 
+/-- `plan_exists exists => #n retries…` (emitted after a failed `plan`): `exists` = some landing branch plans on its own and
+is reachable from the start by the RRT (each twice in a row); the retries are further `plan` calls on the same problem -/
+def opPlanExists : RM Res := do
+  let ex ← rB
+  expect "=>"
+  let os ← rList rB
+  pure { corr := "OK",
+         preds := [P "C12.finds_existing_branch" (!(ex && os.all (· == false)),
+           "planning fails repeatedly although a collision-free continuous landing branch exists and is reachable from the start")],
+         tags := ["n=1", s!"exists={ex}"] }
+
 end Opw.Drv
